@@ -159,6 +159,14 @@ class _Return(Exception):
     pass
 
 
+def _is_file_status(e):
+    """is the Field node the `status` of the file's TransformStatus (wherever it is reached from)?"""
+    bt = e.get("base_ty") or (hir.peel(e.get("x") or {}).get("ty") if isinstance(e.get("x"), dict) else "") or ""
+    if "TransformStatus" in bt:
+        return True
+    return (hir.place(e) or "").endswith(".transform_status.status")
+
+
 def status_table(prog, us):
     """{(cur, new): (final status, number of telemetry.inc calls)} for OperationTransformVisitor::
     update_status(status, tag), by evaluating its body on concrete status values.  Raises
@@ -191,7 +199,7 @@ def status_table(prog, us):
                         b = us.bindings().get(l[0])
                         if b and b["origin"][0] == "let" and b["origin"][1] is not None and not us.assignments_to(l[0]):
                             return val(b["origin"][1])
-                if k == "Field" and e["field"] == "status" and (hir.place(e) or "").endswith(".transform_status.status"):
+                if k == "Field" and e["field"] == "status" and _is_file_status(e):
                     return st["cur"]
                 raise _Unknown(hir.describe(e))
 
@@ -212,6 +220,14 @@ def status_table(prog, us):
                 if hir.is_call(e) and (hir.callee_name(e) or e.get("method")) in ("eq", "ne"):
                     a = hir.call_args(e)
                     return (val(a[0]) == val(a[1])) == ((hir.callee_name(e) or e.get("method")) == "eq")
+                if hir.is_call(e):
+                    # a crate predicate over the file status (is_cancelled(), visit_is_cancelled() ...)
+                    h = prog.resolve_local(e)
+                    if h is not None and h.body is not None and (h.rec.get("ret") == "bool"):
+                        from .prov import return_exprs
+                        rs = return_exprs(h.body)
+                        if len(rs) == 1:
+                            return boolean(rs[0])
                 raise _Unknown(hir.describe(e))
 
             def pat_matches(p, v):
@@ -267,7 +283,8 @@ def status_table(prog, us):
                 if k == "Ret":
                     raise _Return()
                 if k == "Assign":
-                    if (hir.place(e["l"]) or "").endswith(".transform_status.status"):
+                    l_ = hir.peel(e["l"])
+                    if l_.get("k") == "Field" and l_["field"] == "status" and _is_file_status(l_):
                         st["cur"] = val(e["r"])
                         return
                     raise _Unknown("assignment to %s" % hir.describe(e["l"]))
